@@ -49,7 +49,7 @@ theorem aux_app_same {val : Val} {voters : List Id} {n : Nat} {s : Spec.State} {
     have hM : r'.msgs = r.msgs := by rw [heq]; exact hv.msgs
     have hA : r'.msgsAfterAppend = r.msgsAfterAppend ++ [appRespMsg mid m.from idx rej hint lt] := by
       rw [heq]; show mid.msgsAfterAppend ++ _ = _; rw [hv.maa]
-    have hframe : AuxFrame r r' := ⟨Nat.le_of_eq hT.symm, fun _ hl => absurd hl hs⟩
+    have hframe : AuxFrame r r' := ⟨Nat.le_of_eq hT.symm, fun _ hl => absurd hl hs, fun _ _ => hS⟩
     refine ⟨⟨fun hl => (by rw [hS] at hl; cases hl), ?_, (by rw [hM]; exact haux.outFrom)⟩, hframe⟩
     intro x hx
     rw [hA] at hx
